@@ -34,3 +34,13 @@ VARIANTS = [
  dict(name='benign-error-text', file=M, expect='silent',
       find='return fmt.Errorf("invalid plugin name %q: plugin name needs to follow [a-zA-Z0-9_.-]+ format", name)', replace='return fmt.Errorf("plugin name %q is not a valid file name", name)'),
 ]
+
+VARIANTS += [
+ dict(name='verifier-name-into-path-through-helper', file=V, expect='flagged(verifier/name-only-to-manager)',
+      find='\t\tif v.pluginManager == nil {\n', replace='\t\tprobeDir(verificationPluginName)\n\t\tif v.pluginManager == nil {\n',
+      edits=[(V, '\t"net/http"\n', '\t"net/http"\n\t"os"\n\t"path/filepath"\n'),
+             (V, 'func verifyX509TrustedIdentities(', 'func probeDir(n string) bool {\n\t_, err := os.Stat(filepath.Join(os.TempDir(), n))\n\treturn err == nil\n}\n\nfunc verifyX509TrustedIdentities(')]),
+ dict(name='benign-verifier-name-logged-through-helper', file=V, expect='silent',
+      find='\t\tif v.pluginManager == nil {\n', replace='\t\tnoteName(ctx, verificationPluginName)\n\t\tif v.pluginManager == nil {\n',
+      edits=[(V, 'func verifyX509TrustedIdentities(', 'func noteName(ctx context.Context, n string) {\n\tlog.GetLogger(ctx).Debugf("plugin %q", n)\n}\n\nfunc verifyX509TrustedIdentities(')]),
+]
